@@ -698,6 +698,18 @@ class EnvSaveLoad(Bounded):
                 problems['compdb'] = env2.compdb
             if problems:
                 return self.fail(case, raw, 'reloaded_configuration_equals_saved', differences=problems)
+            if to == 17:
+                # what a nested configuration is handed (mopack-options.yml): its `env` section is the recorded changes
+                import yaml
+                from bfg9000.tools import mopack as _mopack
+                out = _mopack.make_options_yml(env2)
+                handed = {}
+                if out is not None:
+                    with open(out.string(env2.base_dirs)) as f:
+                        handed = (yaml.safe_load(f) or {}).get('options', {}).get('env', {})
+                if _apply(env2.variables.initial, handed) != cur:
+                    return self.fail(case, raw, 'changes_handed_to_nested_builds_reproduce_the_variables', handed=handed,
+                                     initial=dict(env2.variables.initial), current=cur)
             if env2.install_dirs != env.install_dirs:
                 kinds = {k.name: (type(env.install_dirs[k]).__name__, type(v).__name__)
                          for k, v in env2.install_dirs.items() if v is not None and type(v) is not type(env.install_dirs[k])}
